@@ -7,6 +7,7 @@ import (
 	"strings"
 
 	"github.com/orda-io/orda/client/pkg/iface"
+	ordalog "github.com/orda-io/orda/client/pkg/log"
 	"github.com/orda-io/orda/client/pkg/model"
 	"github.com/orda-io/orda/client/pkg/orda"
 	"github.com/orda-io/orda/client/pkg/simhook"
@@ -96,6 +97,9 @@ func init() {
 		l.SetLevel(logrus.PanicLevel)
 		l.SetReportCaller(false)
 	}
+	// the package-level logger was created before the hook could be set
+	ordalog.Logger.Logger.SetLevel(logrus.PanicLevel)
+	ordalog.Logger.Logger.SetReportCaller(false)
 }
 
 func (r *run) on(family string) bool { return r.cfg.Oracles[family] }
